@@ -14,7 +14,8 @@
    model says what the code does with each answer.  Ranges: every field is decoded totally (an
    out-of-range number means "no exception"), so the theorems quantify over ALL oracle records.
 
-   [patched = false] is the tree as it is; [patched = true] has docs/C05-fix-7.patch (verify_certificate).
+   [patched = true] has docs/C05-fix-7.patch (verify_certificate, in /repo since 46db33a) and docs/C05-fix-9.patch
+   (_set_peer_certificate: x509.InvalidVersion); [patched = false] has neither.
 
    State kept: what a later check reads -- state, _receive_buffer, _session_resumed, _key_schedule_psk (its
    cipher suite), `_key_schedule_proxy is not None`, key_schedule.generation (-1: key_schedule is None),
@@ -29,6 +30,7 @@ Definition TX_KeyError : Z := 3.
 Definition TX_ValueError : Z := 5.
 Definition TX_AttributeError : Z := 7.
 Definition TX_CertificateError : Z := 8.      (* service_identity.CertificateError *)
+Definition TX_InvalidVersion : Z := 10.       (* cryptography.x509.InvalidVersion (a plain Exception subclass) *)
 
 Inductive texn : Type :=
 | XBuf
@@ -70,7 +72,7 @@ Record orc := mkOrc {
   o_tp_ft : Z;        (*   ... and its frame_type *)
   o_ticket : Z;       (* get_session_ticket_cb(identity): cipher suite of a ticket that is_valid, -1 otherwise *)
   o_binder : bool;    (* PSK binder equals the expected value *)
-  o_load : bool;      (* x509.load_der_x509_certificate accepts every entry (else ValueError) *)
+  o_load : Z;         (* x509.load_der_x509_certificate: 0 raises ValueError, 2 raises x509.InvalidVersion, other: accepts every entry *)
   o_pubkey : Z;       (* _peer_certificate.public_key(): 0 raises ValueError / UnsupportedAlgorithm,
                          1 Ed25519, 2 Ed448, 3 EllipticCurve, 4 RSA, other: another key type *)
   o_sig : bool;       (* public_key.verify succeeds (else InvalidSignature / ValueError) *)
@@ -79,7 +81,7 @@ Record orc := mkOrc {
                          5 extract_patterns raises CertificateError again inside the except handler, other: passes *)
   o_mac : bool        (* Finished.verify_data equals the expected value *)
 }.
-Definition orc0 : orc := mkOrc [] 0 0 (-1) true true 1 true 0 true.
+Definition orc0 : orc := mkOrc [] 0 0 (-1) true 1 1 true 0 true.
 
 Inductive lres : Type :=
 | LOk (c : tctx) (rest : list Z)        (* handler returned; rest = unread part of input_buf *)
@@ -178,10 +180,14 @@ Definition verify_certificate (patched : bool) (o : orc) : option texn :=
   else None.
 
 (* ---- _set_peer_certificate ---------------------------------------------------------------------- *)
-Definition set_peer_certificate (o : orc) (certs : list (list Z)) : option texn :=
+Definition set_peer_certificate (patched : bool) (o : orc) (certs : list (list Z)) : option texn :=
   match certs with
   | [] => Some (XAlert AD_decode_error)
-  | _ :: _ => if o_load o then None else Some (XAlert AD_bad_certificate)
+  | _ :: _ =>
+      if o_load o =? 0 then Some (XAlert AD_bad_certificate)                  (* except ValueError *)
+      else if o_load o =? 2 then                                              (* docs/C05-fix-9.patch catches it too *)
+        Some (if patched then XAlert AD_bad_certificate else XOther TX_InvalidVersion)
+      else None
   end.
 
 Definition need_schedule (c : tctx) (k : lres) : lres :=      (* self.key_schedule.<...> *)
@@ -239,10 +245,10 @@ Definition client_handle_certificate_request (g : tcfg) (c : tctx) (o : orc) (ms
   parsed (pull_certificate_request msg) (fun _ rest =>
     need_schedule c (LOk (set_state c CLIENT_EXPECT_CERTIFICATE) rest)).
 
-Definition client_handle_certificate (g : tcfg) (c : tctx) (o : orc) (msg : list Z) : lres :=
+Definition client_handle_certificate (patched : bool) (g : tcfg) (c : tctx) (o : orc) (msg : list Z) : lres :=
   parsed (pull_certificate msg) (fun certs rest =>
     need_schedule c
-      match set_peer_certificate o certs with
+      match set_peer_certificate patched o certs with
       | Some e => LExn e
       | None => LOk (set_state (set_peer_cert c) CLIENT_EXPECT_CERTIFICATE_VERIFY) rest
       end).
@@ -310,13 +316,13 @@ Definition server_handle_hello (g : tcfg) (c : tctx) (o : orc) (msg : list Z) : 
       end
     end end end end end).
 
-Definition server_handle_certificate (g : tcfg) (c : tctx) (o : orc) (msg : list Z) : lres :=
+Definition server_handle_certificate (patched : bool) (g : tcfg) (c : tctx) (o : orc) (msg : list Z) : lres :=
   parsed (pull_certificate msg) (fun certs rest =>
     need_schedule c
       match certs with
       | [] => LOk (set_state c SERVER_EXPECT_FINISHED) rest
       | _ :: _ =>
-          match set_peer_certificate o certs with
+          match set_peer_certificate patched o certs with
           | Some e => LExn e
           | None => LOk (set_state (set_peer_cert c) SERVER_EXPECT_CERTIFICATE_VERIFY) rest
           end
@@ -344,12 +350,12 @@ Definition run_tls_handler (patched : bool) (h : TlsDispatch.handler) (g : tcfg)
   | H_client_handle_hello => client_handle_hello g c o msg
   | H_client_handle_encrypted_extensions => client_handle_encrypted_extensions g c o msg
   | H_client_handle_certificate_request => client_handle_certificate_request g c o msg
-  | H_client_handle_certificate => client_handle_certificate g c o msg
+  | H_client_handle_certificate => client_handle_certificate patched g c o msg
   | H_client_handle_certificate_verify => client_handle_certificate_verify patched g c o msg
   | H_client_handle_finished => client_handle_finished g c o msg
   | H_client_handle_new_session_ticket => client_handle_new_session_ticket g c o msg
   | H_server_handle_hello => server_handle_hello g c o msg
-  | H_server_handle_certificate => server_handle_certificate g c o msg
+  | H_server_handle_certificate => server_handle_certificate patched g c o msg
   | H_server_handle_certificate_verify => server_handle_certificate_verify g c o msg
   | H_server_handle_finished => server_handle_finished g c o msg
   | H_client_send_hello => LOk (client_send_hello g c) []       (* never dispatched by message type *)
@@ -414,6 +420,39 @@ Definition crypto_deliver (patched : bool) (g : tcfg) (c : tctx) (orcs : list or
   | MExn (XOther k) => CRExn k
   end.
 
+(* ---- a sequence of receive_datagram calls each delivering CRYPTO data ------------------------------
+   receive_datagram's first statement: `if self._state in END_STATES or self._close_pending: return`
+   ([gate] = true: the tree since 54d8ff0 / docs/C05-fix-8.patch; false: END_STATES only, so a datagram that
+   arrives after a QuicConnectionError -- close() called, CONNECTION_CLOSE not yet sent -- is still processed,
+   by a TLS engine that the failed handler left half-updated: [after_exn] is that state). *)
+Inductive sres : Type :=
+| NOk (c : tctx)
+| NClosing (code ft : Z)     (* close pending with this code; later datagrams are ignored *)
+| NExn (k : Z).
+
+Fixpoint crypto_session (patched gate : bool) (after_exn : tctx -> tctx) (g : tcfg) (c : tctx) (closing : option (Z * Z))
+         (chunks : list (list orc * Z * list Z)) : sres :=
+  match chunks with
+  | [] => match closing with Some (code, ft) => NClosing code ft | None => NOk c end
+  | (orcs, ft, data) :: r =>
+      match closing with
+      | Some (code, cft) =>
+          if gate then NClosing code cft else
+          match crypto_deliver patched g c orcs ft data with
+          | CRExn k => NExn k
+          | CROk c' => crypto_session patched gate after_exn g c' closing r
+          | _ => crypto_session patched gate after_exn g (after_exn c) closing r     (* close() is a no-op now *)
+          end
+      | None =>
+          match crypto_deliver patched g c orcs ft data with
+          | CROk c' => crypto_session patched gate after_exn g c' None r
+          | CRQuic code ft' => crypto_session patched gate after_exn g (after_exn c) (Some (code, ft')) r
+          | CRBuf => crypto_session patched gate after_exn g (after_exn c) (Some (EC_FRAME_ENCODING_ERROR, ft)) r
+          | CRExn k => NExn k
+          end
+      end
+  end.
+
 (* ---- executable interface ---------------------------------------------------------------------------
    in : patched,
         cfg: cipher_suites sig_algs (lists) alpn (0 | 1 n (list)*n) key_sigs (list) verify reqcert alpn_cb fetcher
@@ -437,7 +476,7 @@ Fixpoint rd_orcs (n : nat) (t : list Z) : list orc * list Z :=
       match t with
       | a :: b :: c :: d :: e :: f :: g :: h :: i :: t =>
           let '(r, t) := rd_orcs n t in
-          (mkOrc sh a b c (z2b d) (z2b e) f (z2b g) h (z2b i) :: r, t)
+          (mkOrc sh a b c (z2b d) e f (z2b g) h (z2b i) :: r, t)
       | _ => ([], [])
       end
   end.
